@@ -36,7 +36,7 @@ open Soxr.Properties
 /-- **Every stage `dft_stage_init` can leave is well-formed for the count model**, whatever `num_taps` and `post_peak`
     the phase transform produced (only the shape conditions that hold for every phase alike are assumed). -/
 theorem init_stage_wf (i : DftIn) (hL : 0 < i.L) (h1 : 1 ≤ (dftStageInit i).numTaps)
-    (h2 : (dftStageInit i).numTaps ≤ i.dftLen) (h3 : i.L ≤ (dftStageInit i).blockLen)
+    (h2 : (dftStageInit i).numTaps ≤ (dftStageInit i).dftLen) (h3 : i.L ≤ (dftStageInit i).blockLen)
     (h4 : dftOutOK (toStage (dftStageInit i)).cfg 0) : (toStage (dftStageInit i)).WF :=
   toStage_wf i hL h1 h2 h3 h4
 
@@ -239,32 +239,60 @@ theorem linear_design_centred (i : DftIn) (hl : i.lin = true) :
 example : (dftStageInit exLin).numTaps = 385 ∧ (dftStageInit exLin).postPeak = 192 := by decide
 
 /-- **Linear phase always satisfies the block-alignment clause.**  Power-of-two `L` with `Fn == L` (the only way the
-    planner makes a power-of-two `L > 4`): `num_taps = 2·L·q + 1`, so with `dft_length` a power of two not smaller than
-    `L`: `L ∣ block_len`; and the filter's centre falls on the input grid: `at = 0`, `L·preload = post_peak`. -/
+    planner makes a power-of-two `L > 4`): `num_taps = 2·L·q + 1`; `set_dft_length` answers a power of two (`≥ 1`) and the
+    padding loop keeps it one and makes it `≥ 32·L`, so `L ∣ dft_length` and `L ∣ block_len` — no size hypothesis is left;
+    and the filter's centre falls on the input grid: `at = 0`, `L·preload = post_peak`. -/
 theorem linear_block_aligned (i : DftIn) (hl : i.lin = true) (hp : isPow2L i.L = true) (hf : i.fnEqL = true)
-    (b : Nat) (hD : i.dftLen = 2 ^ b) (hLD : i.L ≤ i.dftLen) :
-    FDomainOK (dftStageInit i) ∧ (dftStageInit i).clk = 0 ∧ i.L * (dftStageInit i).preload = (dftStageInit i).postPeak := by
+    (b : Nat) (hD : i.dftLen = 2 ^ b) :
+    FDomainOK (dftStageInit i) ∧ (dftStageInit i).clk = 0 ∧ i.L * (dftStageInit i).preload = (dftStageInit i).postPeak ∧
+    32 * i.L ≤ (dftStageInit i).dftLen := by
   obtain ⟨q, hn, hpp⟩ := dft_lin_form i hl hp hf
   obtain ⟨a, _, ha⟩ := isPow2L_spec i.L hp
   have hLpos : 0 < i.L := by rw [ha]; exact Nat.pow_pos (by omega)
-  have hdvdD : i.L ∣ i.dftLen := by rw [ha, hD]; apply pow2_dvd_of_le; rw [← ha, ← hD]; exact hLD
-  refine ⟨?_, ?_, ?_⟩
+  have hge : 32 * i.L ≤ finalDftLen i.L i.dftLen :=
+    finalDftLen_ge i.L i.dftLen hp (by rw [hD]; exact Nat.pow_pos (by omega))
+  obtain ⟨c, hc⟩ := finalDftLen_pow2 i.L b
+  rw [← hD] at hc
+  have hdvdD : i.L ∣ finalDftLen i.L i.dftLen := by
+    rw [hc]
+    have : i.L ≤ 2 ^ c := by rw [← hc]; omega
+    rw [ha] at this ⊢
+    exact pow2_dvd_of_le a c this
+  refine ⟨?_, ?_, ?_, ?_⟩
   · intro _
     rw [dft_blockLen, hn, dft_dftLen, dft_L]
     apply (Nat.dvd_sub hdvdD)
     exact ⟨2 * q, by rw [Nat.add_sub_cancel, Nat.mul_comm 2 i.L, Nat.mul_assoc]⟩
   · rw [dft_clk, hpp]; exact Nat.mul_mod_right _ _
   · rw [dft_preload, hpp, Nat.mul_div_cancel_left _ hLpos]
+  · rw [dft_dftLen]; exact hge
 
 example : FDomainOK (dftStageInit exLin) ∧ (dftStageInit exLin).blockLen = 1664 := by decide
 example : isPow2L exLin.L = true ∧ exLin.dftLen = 2 ^ 11 := by decide
 
+/-- **The padding loop of `dft_stage_init`** (repair of F5): for a power-of-two `L` the forward transform keeps at least 32
+    points (`dft_length ≥ 32·L`), the length only ever doubles (a power of two stays one), and a length that is already
+    large enough — the F1 witness plan, every plan with the default size limits — is untouched. -/
+theorem dft_length_padded (i : DftIn) (hD : 1 ≤ i.dftLen) :
+    (isPow2L i.L = true → 32 * i.L ≤ (dftStageInit i).dftLen) ∧
+    (∃ j, (dftStageInit i).dftLen = i.dftLen * 2 ^ j) ∧
+    (32 * i.L ≤ i.dftLen → (dftStageInit i).dftLen = i.dftLen) := by
+  refine ⟨fun hp => by rw [dft_dftLen]; exact finalDftLen_ge _ _ hp hD, ?_, fun h => by rw [dft_dftLen]; exact finalDftLen_id _ _ h⟩
+  rw [dft_dftLen]; unfold finalDftLen
+  split
+  · exact padDft_form _ _ _
+  · exact ⟨0, by rw [Nat.pow_zero, Nat.mul_one]⟩
+
+/-- `log2_large_dft_size = 8`, 1→8192 (the F5 configuration): `set_dft_length` answers 4096 for the `L = 256` stage, padded to 8192 -/
+example : (dftStageInit { lin := true, L := 256, M := 1, nRaw := 2000, dftLen := 4096 }).dftLen = 8192 ∧
+    (dftStageInit exMin).dftLen = 2048 ∧ (dftStageInit { exMin with L := 3, dftLen := 64 }).dftLen = 64 := by decide
+
 /-- **Every phase satisfies the clause when `L ∣ 4`** (`L = 2`, `4`: the pre-stage and small post-stages): the length is
     `≡ 1 (mod 4)` both as designed (`k = 4`) and after `lsx_fir_to_phase` (`transformed_length_mod4`). -/
-theorem small_L_block_aligned (i : DftIn) (hL4 : i.L ∣ 4) (hD : i.L ∣ i.dftLen)
+theorem small_L_block_aligned (i : DftIn) (hL4 : i.L ∣ 4) (hD : i.L ∣ (dftStageInit i).dftLen)
     (hmod : (dftStageInit i).numTaps % 4 = 1) : FDomainOK (dftStageInit i) := by
   intro _
-  rw [dft_blockLen, dft_dftLen, dft_L]
+  rw [dft_blockLen, dft_L]
   apply Nat.dvd_sub hD
   have : 4 ∣ (dftStageInit i).numTaps - 1 := ⟨(dftStageInit i).numTaps / 4, by omega⟩
   exact Nat.dvd_trans hL4 this
